@@ -518,6 +518,43 @@ func mkPrefixOf(p, s *Term) *Term {
 	if p.IsConst() && s.IsConst() {
 		return mkBool(strings.HasPrefix(s.S, p.S))
 	}
+	if !p.IsConst() {
+		// piecewise: strip identical leading pieces (and common constant prefixes)
+		pp, sp := concatParts(p), concatParts(s)
+		for len(pp) > 0 && len(sp) > 0 {
+			if pp[0] == sp[0] {
+				pp, sp = pp[1:], sp[1:]
+				continue
+			}
+			if pp[0].IsConst() && sp[0].IsConst() {
+				x, y := pp[0].S, sp[0].S
+				if strings.HasPrefix(y, x) {
+					pp = pp[1:]
+					if len(y) == len(x) {
+						sp = sp[1:]
+					} else {
+						sp = append([]*Term{mkStr(y[len(x):])}, sp[1:]...)
+					}
+					continue
+				}
+				if strings.HasPrefix(x, y) && len(sp) > 1 {
+					pp = append([]*Term{mkStr(x[len(y):])}, pp[1:]...)
+					sp = sp[1:]
+					continue
+				}
+				if !strings.HasPrefix(x, y) {
+					return tFalse
+				}
+			}
+			break
+		}
+		if len(pp) == 0 {
+			return tTrue
+		}
+		if len(pp) != len(concatParts(p)) {
+			return mkPrefixOf(mkConcat(pp...), mkConcat(sp...))
+		}
+	}
 	if p.IsConst() {
 		if p.S == "" {
 			return tTrue
